@@ -667,7 +667,7 @@ class GroupBy:
             if isinstance(orig_type, pl.DataType):
                 series = pl.Series(arr, dtype=orig_type)
                 arrow = series.to_arrow()
-                arr = arrow.to_numpy()
+                arr = arrow.to_numpy(zero_copy_only=False)  # nulls need a copy
                 dtype = pd.ArrowDtype(arrow.type)
             else:
                 arr = arr.view(int)
